@@ -41,12 +41,12 @@ CONFIG = {
     'deciding': ['c06.meta', 'c06.hashseed'],
     'shards': {'quick': 16, 'thorough': 16},
     'hashseeds': {'quick': 4, 'thorough': 16},
-    'min_evals': {'quick': {'c06.meta': 5000, 'c06.hashseed': 250},
+    'min_evals': {'quick': {'c06.meta': 40000, 'c06.hashseed': 250},
                   'thorough': {'c06.meta': 60000, 'c06.hashseed': 4000}},
     'must_sig': ['tau:bijection', 'tau:containers', 'tau:atoms',
                  'tau:unreachable', 'tau:shuffle', 'tau:retype',
                  'tau:distinct_objects',
-                 'logic:CTL', 'logic:LTL', 'logic:CTLS'],
+                 'logic:CTL', 'logic:LTL', 'logic:CTLS', 'bulk:CTL'],
     'rule': ('cases = (structure, formula, logic) from a seeded list; each '
              'evaluated under every hash seed of the run (fresh interpreter '
              'per seed) and under 6 transformations in-process. non-trivial '
@@ -280,8 +280,72 @@ def meta(r, idx, logic, nk, t, base):
                           note='answer changed under transformation ' + name)
 
 
+BULK_FORMS = None
+
+
+def bulk_forms():
+    p, q, r_ = ('ap', ATOM_NAMES['p']), ('ap', ATOM_NAMES['q']), \
+        ('ap', ATOM_NAMES['r'])
+    T = ('bool', True)
+    out = []
+    for a in (p, q, ('or', p, q), ('not', r_), ('and', p, ('not', q))):
+        out += [('E', ('G', a)), ('A', ('F', a)), ('A', ('G', a)),
+                ('E', ('F', a))]
+        for b in (q, r_, ('and', p, q), ('not', p)):
+            out += [('E', ('U', a, b)), ('A', ('U', a, b)),
+                    ('E', ('R', a, b)), ('A', ('R', a, b))]
+    out += [('E', ('G', ('E', ('F', p)))), ('A', ('G', ('E', ('U', p, q)))),
+            ('E', ('U', ('E', ('G', p)), q)),
+            ('and', ('E', ('U', p, q)), ('not', q)),
+            ('imply', ('E', ('U', p, q)), q),
+            ('or', ('A', ('G', p)), ('not', p))]
+    return out
+
+
+def bulk_ctl(ctx):
+    """Many cheap CTL cases on larger structures (5-8 states, most states
+    satisfying the atoms, so that phi-subgraphs have several SCCs and the
+    until/global algorithms depend on visiting order), each under all
+    transformations.  Order-dependent faults in SCC search, reachability or
+    edge insertion show as a changed answer."""
+    global BULK_FORMS
+    if BULK_FORMS is None:
+        BULK_FORMS = bulk_forms()
+    n = 6400 if ctx.quick else 160000
+    for k in range(n):
+        if not ctx.mine(k):
+            continue
+        r = gen.rng(ctx.seed, PROP, ('bulk', k))
+        nk0 = gen.random_structure(r, 8, atoms=('p', 'q', 'r'), nmin=5,
+                                   maxdeg=2,
+                                   shape=r.choice(['plain', 'chain', 'plain',
+                                                   'unreach']))
+        labels = []
+        for i in range(nk0.n):
+            labels.append(frozenset(ATOM_NAMES[a] for a in ('p', 'q', 'r')
+                                    if r.random() < (0.8 if a == 'p'
+                                                     else 0.35)))
+        kind = k % 3
+        if kind == 0:
+            names = list(range(nk0.n))
+        elif kind == 1:
+            names = ['st_%s%d' % ('qwertyui'[i], i * 13)
+                     for i in range(nk0.n)]
+        else:
+            names = [(i % 3, 'k%d' % i) for i in range(nk0.n)]
+        nk = NK(names, nk0.succ, labels)
+        t = r.choice(BULK_FORMS) if r.random() < 0.8 else \
+            rename_atoms(gen.random_ctl(r, 3, ('p', 'q', 'r')), ATOM_NAMES)
+        base, od = run_base('CTL', nk, t)
+        LOG.sig['bulk:CTL'] += 1
+        if isinstance(base, list) and 0 < len(base) < nk.n:
+            LOG.mark_nontrivial(('bulk', k))
+        meta(r, 100000 + k, 'CTL', nk, t, base)
+
+
 def run(ctx):
     attach()
+    bulk_ctl(ctx)
     ncases = 320 if ctx.quick else 4800
     nseeds = CONFIG['hashseeds'][ctx.tier]
     ngroups = max(1, ctx.nshards // nseeds)
@@ -354,6 +418,16 @@ def replay(ctx, rep):
     attach()
     c = rep['case']
     idx = c['case_index']
+    if idx >= 100000:
+        # bulk CTL case: re-run the structure/formula recorded in the case
+        from ..mcwork import to_tuple, nk_from_json
+        nk = nk_from_json(c['K'], real_names=True)
+        t = to_tuple(c['formula'])
+        for attempt in range(40):
+            base, od = run_base('CTL', nk, t)
+            meta(gen.rng(ctx.seed, PROP, ('replay', attempt)), idx, 'CTL',
+                 nk, t, base)
+        return
     r = gen.rng(ctx.seed, PROP, idx)
     logic, nk, t = make_case(r, idx)
     base, od = run_base(logic, nk, t)
